@@ -876,8 +876,29 @@ impl<'r> Builder<'r> {
                 self.tag("mint");
             }
         }
-        if self.rng.below(100) < self.cfg.mint_pct / 2 {
-            let amount = if !self.cur_tx.mints.is_empty() && self.rng.bool() {
+        let nburn = if self.rng.below(100) < self.cfg.mint_pct / 2 { 1 + (self.rng.chance(1, 3) as usize) } else { 0 };
+        for _ in 0..nburn {
+            let amount = if !self.cur_tx.mints.is_empty() && self.rng.chance(1, 3) {
+                // burn exactly what a mint block (or one atom of it) mints: the class nets to zero and
+                // must vanish from the mint field, together with its policy when nothing else is left
+                self.tag("mint+burn-exact-cancel");
+                let mi = self.rng.usize(self.cur_tx.mints.len());
+                if self.rng.bool() {
+                    // the cancelled block guards nothing any more: no redeemer on it
+                    self.cur_tx.mints[mi].redeemer = None;
+                }
+                let whole = self.cur_tx.mints[mi].amount.clone();
+                match &whole {
+                    E::Add(a, b) if self.rng.bool() => {
+                        if self.rng.bool() {
+                            (**a).clone()
+                        } else {
+                            (**b).clone()
+                        }
+                    }
+                    _ => whole,
+                }
+            } else if !self.cur_tx.mints.is_empty() && self.rng.bool() {
                 // burn on a class that is also minted (same policy, one ledger slot)
                 self.tag("mint+burn-same-class");
                 match &self.cur_tx.mints[0].amount {
@@ -895,7 +916,7 @@ impl<'r> Builder<'r> {
             };
             let clash = match &burn_policy {
                 None => true,
-                Some(p) => self.cur_tx.mints.iter().any(|m| {
+                Some(p) => self.cur_tx.mints.iter().chain(self.cur_tx.burns.iter()).any(|m| {
                     let mut names = vec![];
                     collect_asset_calls(&m.amount, &mut names);
                     names.iter().any(|n| self.g.prog.assets.iter().any(|d| d.name == *n && d.policy == *p)) || contains_any_asset(&m.amount)
@@ -1299,9 +1320,48 @@ pub fn world(g: &Generated, ti: usize, rng: &mut Rng, cfg: &Cfg) -> World {
         w.args.insert(d.name.to_lowercase(), role_value(d, g, rng, cfg));
     }
     let tx = &g.prog.txs[ti];
+    // hostile correlation: two *different* signer expressions that denote the same key hash (a party's
+    // address and a Bytes parameter holding its payment hash, two parties with one payment key, ...)
+    if let Some(signers) = &tx.signers {
+        if signers.len() >= 2 && rng.chance(1, 2) {
+            let i = rng.usize(signers.len());
+            let j = (i + 1 + rng.usize(signers.len() - 1)) % signers.len();
+            let src_hash: Option<Vec<u8>> = {
+                let sem = super::sem::Sem::new(&g.prog, &w);
+                match sem.eval(&signers[i]) {
+                    Ok(V::Address(a)) => super::sem::payment_hash(&a),
+                    Ok(V::Bytes(b)) if b.len() == 28 => Some(b),
+                    _ => None,
+                }
+            };
+            if let Some(h) = src_hash {
+                match &signers[j] {
+                    E::Party(name) => {
+                        // same payment key, possibly another address kind / stake part
+                        let mut a = rand_address(rng, false, None);
+                        if a.len() >= 29 && (a[0] >> 4) <= 7 {
+                            a[1..29].copy_from_slice(&h);
+                            w.args.insert(name.to_lowercase(), V::Address(a));
+                        }
+                    }
+                    E::Param(name) => {
+                        if matches!(w.args.get(&name.to_lowercase()), Some(V::Bytes(b)) if b.len() == 28) {
+                            w.args.insert(name.to_lowercase(), V::Bytes(h));
+                        }
+                    }
+                    _ => {}
+                }
+            }
+        }
+    }
     let sem = super::sem::Sem::new(&g.prog, &w);
     let mut inputs = BTreeMap::new();
     let mut counter = 0u8;
+    // hostile correlation: UTxOs created by one transaction (same id, different output index), with
+    // indices on both sides of the one-byte / two-byte boundaries
+    let shared_txids = rng.chance(1, 3);
+    let mut txids_seen: Vec<Vec<u8>> = vec![];
+    let mut all_refs: Vec<(Vec<u8>, u64)> = vec![];
     let mut used_refs: Vec<(Vec<u8>, u64)> = vec![];
     for (name, datum_ty, many) in &g.txs[ti].inputs {
         let block = tx.inputs.iter().find(|i| i.name == *name).unwrap();
@@ -1329,16 +1389,32 @@ pub fn world(g: &Generated, ti: usize, rng: &mut Rng, cfg: &Cfg) -> World {
             // the referenced UTxO when the block names one by literal / param
             // (two blocks naming the same reference must not be given the same UTxO: one UTxO is
             // never spent through two blocks)
+            let mut fresh = |rng: &mut Rng| -> (Vec<u8>, u64) {
+                if shared_txids {
+                    for _ in 0..8 {
+                        let txid = if !txids_seen.is_empty() && rng.chance(2, 3) { rng.pick(&txids_seen).clone() } else { fresh_txid(rng, counter) };
+                        let index = *rng.pick(&[0u64, 1, 2, 3, 9, 10, 23, 24, 255, 256, 257, 300, 511, 512, 65_535, 65_536, 70_000]);
+                        if !all_refs.contains(&(txid.clone(), index)) {
+                            return (txid, index);
+                        }
+                    }
+                }
+                (fresh_txid(rng, counter), rng.below(6))
+            };
             let (txid, index) = match (&block.rf, k) {
                 (Some(e), 0) => match sem.eval(e) {
                     Ok(V::Refs(r)) if r.len() == 1 && !used_refs.contains(&r[0]) => {
                         used_refs.push(r[0].clone());
                         (r[0].0.clone(), r[0].1)
                     }
-                    _ => (fresh_txid(rng, counter), rng.below(6)),
+                    _ => fresh(rng),
                 },
-                _ => (fresh_txid(rng, counter), rng.below(6)),
+                _ => fresh(rng),
             };
+            if !txids_seen.contains(&txid) {
+                txids_seen.push(txid.clone());
+            }
+            all_refs.push((txid.clone(), index));
             us.push(UtxoV {
                 txid,
                 index,
